@@ -349,9 +349,14 @@ class ModelCacheMixin:
             e.hash() in self._eval_exhausted
             or e.hash() in (self._min_signed_exhausted if signed else self._min_exhausted)
         ):
-            # we set allow_unconstrained to False because we expect all returned values for e are returned by Z3,
-            # instead of some arbitrarily assigned concrete values.
-            cached = self._get_solutions(e, extra_constraints=extra_constraints, allow_unconstrained=False)
+            # Where only the optimum is known to be cached, we expect it to come from a model Z3 returned for e,
+            # not from arbitrarily assigned concrete values.  Where e was enumerated to exhaustion, its values were
+            # counted with the cached models completed by default values (a model that does not mention a variable
+            # has been checked, with that default, against every constraint added since), so they are read the same
+            # way here - otherwise a value only such a model stands for is missing, and it may be the optimum.
+            cached = self._get_solutions(
+                e, extra_constraints=extra_constraints, allow_unconstrained=e.hash() in self._eval_exhausted
+            )
 
         if len(cached) > 0:
 
@@ -376,7 +381,9 @@ class ModelCacheMixin:
             e.hash() in self._eval_exhausted
             or e.hash() in (self._max_signed_exhausted if signed else self._max_exhausted)
         ):
-            cached = self._get_solutions(e, extra_constraints=extra_constraints, allow_unconstrained=False)
+            cached = self._get_solutions(
+                e, extra_constraints=extra_constraints, allow_unconstrained=e.hash() in self._eval_exhausted
+            )
 
         if len(cached) > 0:
 
